@@ -170,11 +170,16 @@ fn dump_impls(tcx: TyCtxt<'_>) -> J {
         for &it in tcx.associated_item_def_ids(did) {
             let ai = tcx.associated_item(it);
             provided_names.push(ai.opt_name().map(|s| s.to_string()).unwrap_or_else(|| "<rpitit>".to_string()));
-            provided.push(J::obj(vec![
+            let mut rec = vec![
                 ("name", J::S(ai.opt_name().map(|s| s.to_string()).unwrap_or_else(|| "<rpitit>".to_string()))),
                 ("kind", J::S(format!("{:?}", tcx.def_kind(it)))),
                 ("id", J::S(path_str(tcx, it))),
-            ]));
+            ];
+            if matches!(tcx.def_kind(it), DefKind::AssocTy) && ai.opt_name().is_some() {
+                let t = tcx.type_of(it).instantiate_identity().skip_norm_wip();
+                rec.push(("ty", J::S(ty_str(t))));
+            }
+            provided.push(J::obj(rec));
         }
         fields.push(("items", J::A(provided)));
         if of_trait {
